@@ -33,8 +33,16 @@ def Kind.isSet : Kind → Bool
 def Kind.isMutable : Kind → Bool
   | .dict => true | .list => true | .set => true | _ => false
 
-/-- scalar leaves: `None`, ints, strings (a class of `==`-equal Python objects each) -/
-inductive Atom | none | int (i : Int) | str (s : String)
+/-- scalar leaves (everything `default_enter` does not traverse): `None`, ints, strings, `bytes`
+    (the list of byte values), floats (`float twice` is the float `twice / 2`), bools and `other n`,
+    the `n`-th of a pool of further truthy scalar objects (`...`, a complex number, a builtin function).
+    Each atom is a class of Python objects that are `==` to each other and to nothing else in the
+    structure: the harness keeps floats with an integral value and bools (`1 == 1.0 == True`) out of
+    hashed positions (dict keys, set members), where Python would identify them with ints.
+    `str` and `bytes` are Sequences that `default_enter` names explicitly as leaves: they are visited
+    once, as a whole, and never traversed. -/
+inductive Atom | none | int (i : Int) | str (s : String) | bytes (b : List Nat) | float (twice : Int)
+  | bool (b : Bool) | other (n : Nat)
 deriving DecidableEq, Repr, Inhabited
 
 abbrev Key := Atom
@@ -105,12 +113,13 @@ The same programs are interpreted by the Python harness on the real objects. -/
 inductive View | atom (a : Atom) | cont (kd : Kind) (n : Nat)
 
 inductive Cond
-  | always | isNone | isInt | isStr | isCont | isKind (kd : Kind) | isEmptyCont | falsy
+  | always | isNone | isInt | isStr | isBytes | isFloat | isBool | isCont | isKind (kd : Kind) | isEmptyCont | falsy
   | valIs (a : Atom) | keyIs (a : Atom) | keyIsInt | pathLenGe (n : Nat) | pathLastIs (a : Atom)
 deriving Repr
 
 inductive Act
-  | keep | keepPair | drop | incr | setKey (a : Atom) | setVal (a : Atom) | keyIncr | valLen | valDepth | raise
+  | keep | keepPair | drop | incr | setKey (a : Atom) | setVal (a : Atom) | keyIncr | keyNeg | keyStr
+  | valLen | valDepth | raise
 deriving Repr
 
 structure Rule where
@@ -127,6 +136,9 @@ def evalCond (c : Cond) (p : Path) (k : Key) (v : View) : Bool :=
   | .isNone => match v with | .atom .none => true | _ => false
   | .isInt => match v with | .atom (.int _) => true | _ => false
   | .isStr => match v with | .atom (.str _) => true | _ => false
+  | .isBytes => match v with | .atom (.bytes _) => true | _ => false
+  | .isFloat => match v with | .atom (.float _) => true | _ => false
+  | .isBool => match v with | .atom (.bool _) => true | _ => false
   | .isCont => match v with | .cont _ _ => true | _ => false
   | .isKind kd => match v with | .cont kd' _ => kd' == kd | _ => false
   | .isEmptyCont => match v with | .cont _ n => n == 0 | _ => false
@@ -134,6 +146,10 @@ def evalCond (c : Cond) (p : Path) (k : Key) (v : View) : Bool :=
     | .atom .none => true
     | .atom (.int i) => i == 0
     | .atom (.str s) => s == ""
+    | .atom (.bytes b) => b.isEmpty
+    | .atom (.float t) => t == 0
+    | .atom (.bool b) => !b
+    | .atom (.other _) => false
     | .cont _ n => n == 0
   | .valIs a => match v with | .atom b => b == a | _ => false
   | .keyIs a => k == a
@@ -153,6 +169,8 @@ def evalAct (a : Act) (p : Path) (k : Key) (v : View) : VAct :=
   | .setKey a => .repl a none
   | .setVal a => .repl k (some a)
   | .keyIncr => match k with | .int i => .repl (.int (i + 1)) none | _ => .repl k none
+  | .keyNeg => match k with | .int i => .repl (.int (-i)) none | _ => .repl k none
+  | .keyStr => match k with | .int i => .repl (.str (toString i)) none | _ => .repl k none
   | .valLen => match v with | .cont _ n => .repl k (some (.int n)) | _ => .repl k none
   | .valDepth => .repl k (some (.int p.length))
   | .raise => .raise
